@@ -128,6 +128,62 @@ def tick_fold(L, repo):
     return True
 
 
+def life_fold(L, repo):
+    """The generator's life on ONE object, folded: constructor (start frame S, period P, one link), start(), ticks, stop(),
+    start() again, ticks - for (S, P) in (0, 51), (10, 51), (2715640, 7).  Thread and event objects are oracles.  Required: after
+    every start() the first tick carries frame S and the ticks count up from there; in both runs the indications go out at
+    exactly the multiples of P (state kept between ticks - a countdown, a cached payload - that start() does not re-arm shows
+    up in the second run).  -> False when the methods leave the evaluator's vocabulary."""
+    from consteval import Opaque
+    ci, init = repo.need_method("clck_gen", "CLCKGen", "__init__")
+    c1, start = repo.need_method("clck_gen", "CLCKGen", "start")
+    c2, stop = repo.need_method("clck_gen", "CLCKGen", "stop")
+    c3, tick = repo.need_method("clck_gen", "CLCKGen", "send_clck_ind")
+    H = fold(repo, repo.mod("gsm_shared"), ast.parse("GSM_HYPERFRAME", mode="eval").body)
+    rows = []
+    try:
+        for S, P, n1, n2 in ((0, 51, 70, 60), (10, 51, 70, 120), (H - 8, 7, 20, 20)):
+            sent, frames = [], []
+            e = Ev(repo, ci.mod, env={}, self_cls=ci)
+            e.ignore_calls = ("log.", "logging.")
+
+            def thr(a, k=None):
+                return Opaque("THREAD")
+            thr.wants_kw = True
+            e.hooks = {"threading.Thread": thr, "Thread": thr, "threading.Event": lambda a: Opaque("EVENT"), "Event": lambda a: Opaque("EVENT"),
+                       "self._thread.start": lambda a: None, "self._thread.join": lambda a: None, "self._thread.is_alive": lambda a: True,
+                       "self._breaker.set": lambda a: None, "self._breaker.clear": lambda a: None, "self._breaker.is_set": lambda a: False,
+                       "LINK.send": lambda a, sn=sent: sn.append(a[0] if a else None),
+                       "HANDLER": lambda a, fr=frames: fr.append(a[0] if a else None),
+                       "self.clck_handler": lambda a, fr=frames: fr.append(a[0] if a else None)}
+            e.call_func(init, ci.mod, e._bindargs(init, ["<self>", [Opaque("LINK")], S, P], {}), self_cls=ci, writeback=True)
+            e.env["self.clck_handler"] = Opaque("HANDLER")
+            runs = []
+            for n in (n1, n2):
+                del sent[:]
+                del frames[:]
+                e.call_func(start, ci.mod, [("self", "<self>")], self_cls=ci, writeback=True)
+                for _ in range(n):
+                    e.call_func(tick, ci.mod, [("self", "<self>")], self_cls=ci, writeback=True)
+                e.call_func(stop, ci.mod, [("self", "<self>")], self_cls=ci, writeback=True)
+                runs.append((list(frames), [p_.decode("latin-1") if isinstance(p_, (bytes, bytearray)) else p_ for p_ in sent]))
+            rows.append((S, P, (n1, n2), runs))
+    except (Unknown, Raised):
+        return False
+    fn = "CLCKGen"
+    L.fn(F, "CLCKGen.start")
+    for S, P, ns, runs in rows:
+        for k, (n, (frames, sent)) in enumerate(zip(ns, runs)):
+            wf = [(S + i) % H for i in range(n)]
+            ws = ["IND CLOCK %u\0" % f for f in wf if f % P == 0]
+            which = "first run" if k == 0 else "after stop() and start() again"
+            L.ob("C09.R4", F, fn, "life of one generator (start frame %d, period %d), %s: the handler sees the frames counted from the start frame" % (S, P, which),
+                 "%d frames from %d" % (n, S), "as required" if frames == wf else "frames %s..." % frames[:4], frames == wf, start.lineno)
+            L.ob("C09.R2", F, fn, "life of one generator (start frame %d, period %d), %s: indications exactly at the multiples of the period" % (S, P, which),
+                 ws[:4], sent[:4] if sent != ws else ws[:4], sent == ws, tick.lineno)
+    return True
+
+
 def r2_indication(L, repo):
     ci, fd = repo.need_method("clck_gen", "CLCKGen", "send_clck_ind")
     fn = "CLCKGen.send_clck_ind"
@@ -643,6 +699,7 @@ def run(L, tier):
     else:
         L.stage(r1_counter, L, repo)
         L.stage(r2_indication, L, repo)
+    L.stage(life_fold, L, repo)
     L.stage(r3, L, repo)
     L.stage(r4_restart, L, repo)
     L.stage(r7_worker_setup, L, repo)
